@@ -103,12 +103,16 @@ example : PluralParse.parse "n || n && n == n < n + n * !n".toList =
       (.binop .name .add (.binop .name .mult (.unaryop .not .name))))))) := by rfl
 example : PluralParse.parse "n ! = 1".toList = .syntaxError := by rfl
 
-/-- **Recorded finding (int() digit limit).**  A numeral of more than 4300 digits belongs to the grammar, yet the
-    parser does not accept it: CPython's `int()` raises `ValueError`, which is neither acceptance nor the parser's own
-    syntax error.  The model carries this outcome explicitly; the witness is replayed on the real code by the check
-    (known_findings.json, key `C04:int-digit-limit`). -/
-theorem accepts_every_grammar_string_refuted :
-    PluralParse.parse (List.replicate 4301 '1') = .valueError := by decide +kernel
+/-- **No numeral is refused for its length** (on the pinned tree `int()` raised `ValueError` beyond 4300 digits:
+    neither acceptance nor the parser's own syntax error; repaired by `fix:` 871d4d7, and `grammar_pin` ties the
+    model's limit to the one dumped from the running tool).  The lexer model never yields the `ValueError` outcome … -/
+theorem tooLong_never (len : Nat) : PluralParse.tooLong len = false := by
+  simp [PluralParse.tooLong, PluralParse.maxStrDigits]
+
+/-- … and the old witness, a numeral of 4301 digits, is accepted as a constant. -/
+theorem long_numeral_accepted :
+    (match PluralParse.parse (List.replicate 4301 '1') with | .ok (.num _) => true | _ => false) = true := by
+  decide +kernel
 
 /-! Non-vacuity: laziness and failure, concretely. -/
 example : evalAt 32 0 (.boolop .and .name (.binop (.num 1) .div .name)) = .ok 0 := by rfl   -- 0 && 1/0
